@@ -159,4 +159,32 @@ def recTnaf (cap : Nat) (k : Nat) (u : Int) (m w : Nat) : Option (List Int) :=
   if cap < bits + 1 then none
   else recTnafLoop u w (2 * bits + 2 * m + 64) (tnafMod k u m) []
 
+/-! ### Z[τ] on pairs (used by the driver to judge a recoding: Σ α(d_i) τ^i ≡ k modulo τ^m - 1) -/
+
+def mulT (u : Int) (a b : ZT) : ZT := (a.1 * b.1 - 2 * a.2 * b.2, a.1 * b.2 + a.2 * b.1 + u * a.2 * b.2)
+def addT (a b : ZT) : ZT := (a.1 + b.1, a.2 + b.2)
+def subT (a b : ZT) : ZT := (a.1 - b.1, a.2 - b.2)
+
+/-- τ^n -/
+def powTau (u : Int) : Nat → ZT
+  | 0 => (1, 0)
+  | n + 1 => mulT u (0, 1) (powTau u n)
+
+/-- the value of a digit string: Σ α(d_i) τ^i (Horner from the top) -/
+def evalDigits (u : Int) (w : Nat) (ds : List Int) : ZT :=
+  ds.foldr (fun d acc => addT (alpha u w d) (mulT u (0, 1) acc)) (0, 0)
+
+/-- conjugate and norm: (a + bτ)(a + b·τ̄) = a² + μab + 2b² -/
+def conjT (u : Int) (a : ZT) : ZT := (a.1 + u * a.2, -a.2)
+def normT (u : Int) (a : ZT) : Int := a.1 * a.1 + u * a.1 * a.2 + 2 * a.2 * a.2
+
+/-- y divides x in Z[τ] (y ≠ 0): x·ȳ is a multiple of N(y) -/
+def dividesT (u : Int) (y x : ZT) : Bool :=
+  let z := mulT u x (conjT u y)
+  let n := normT u y
+  n ≠ 0 && z.1 % n == 0 && z.2 % n == 0
+
+/-- x ≡ y modulo τ^m - 1 -/
+def congTauM (u : Int) (m : Nat) (x y : ZT) : Bool := dividesT u (subT (powTau u m) (1, 0)) (subT x y)
+
 end Relic.Model.Tnaf
